@@ -18,17 +18,29 @@ Hostile(n) ==      \* contains a string / key atom of the hostile table, or is a
     [] n.k = "O" -> TRUE
     [] OTHER -> FALSE
 
+(* listed deviation "yaml-merge-key-unquoted": the YAML writer leaves the object key "<<" (atom y42) unquoted, and every   *)
+(* YAML reader takes it for a merge key; only the legs that write YAML are affected                                        *)
+RECURSIVE HasMergeKey(_)
+HasMergeKey(n) ==
+  CASE n.k = "O" -> ("y42" \in DOMAIN n.v) \/ \E key \in DOMAIN n.v : HasMergeKey(n.v[key])
+    [] n.k = "A" -> \E i \in DOMAIN n.v : HasMergeKey(n.v[i])
+    [] OTHER -> FALSE
+CheckY(c, clause) ==
+  IF c THEN TRUE
+  ELSE IF "yaml-merge-key-unquoted" \in KnownDevs /\ HasMergeKey(Rec.n) THEN PrintT(<<"JDV-KNOWN", Rec.sess, "C16", "yaml-merge-key-unquoted", clause>>)
+  ELSE FailLine("C16", clause)
+
 TYa ==
   /\ IsEvent("Ya") /\ Consume
   /\ (Hostile(Rec.n) => PrintT(<<"JDV-STAT", "nontrivial", 1>>))
   /\ LET n == Rec.n IN
-     /\ Check(Same(Rec.yy, n), "C16", "yaml-write-yaml-read")
+     /\ CheckY(Same(Rec.yy, n), "yaml-write-yaml-read")
      /\ Check(Same(Rec.jj, n), "C16", "json-write-json-read")
      /\ Check(Same(Rec.jy, n), "C16", "json-write-yaml-read")
-     /\ Check(Rec.eq, "C16", "yaml-born-not-equal-json-born")
-     /\ \A i \in DOMAIN Rec.pys : Check(Same(Rec.pys[i].gy, Rec.pys[i].gj) /\ Same(Rec.pys[i].gj, Rec.pys[i].m), "C16", "yaml-born-patched-like-json-born")
-     /\ ("cli" \in DOMAIN Rec) => Check(Same(Rec.cli, n), "C16", "cli-json2yaml-yaml2json")
-     /\ ("cli2" \in DOMAIN Rec) => Check(Same(Rec.cli2, Rec.b), "C16", "cli-yaml-diff-patch")
+     /\ CheckY(Rec.eq, "yaml-born-not-equal-json-born")
+     /\ \A i \in DOMAIN Rec.pys : CheckY(Same(Rec.pys[i].gy, Rec.pys[i].gj) /\ Same(Rec.pys[i].gj, Rec.pys[i].m), "yaml-born-patched-like-json-born")
+     /\ ("cli" \in DOMAIN Rec) => CheckY(Same(Rec.cli, n), "cli-json2yaml-yaml2json")
+     /\ ("cli2" \in DOMAIN Rec) => CheckY(Same(Rec.cli2, Rec.b), "cli-yaml-diff-patch")
 Next == TYa \/ Done
 Spec == Init /\ [][Next]_vars
 =============================================================================
